@@ -173,4 +173,503 @@ theorem wq_enqueueJob (p : WP) (e : Env) (j : Job) :
           exact List.Sublist.refl _
     exact ⟨goal.1, goal.2.1, fun b hb => (goal.2.2 b hb).trans (he1 b)⟩
 
+
+/-! ## mailboxes under `stop` and `spawn` -/
+
+theorem mbox_stop (e : Env) (aid b : Nat) : mbox (e.stop aid) b = mbox e b := by
+  obtain ⟨st, hself⟩ := stop_spec e aid
+  by_cases hb : b = aid
+  · subst hb
+    unfold Env.stop
+    cases g : e.getActor b with
+    | none => rfl
+    | some a =>
+      simp only
+      split
+      · rfl
+      · have haid := getActor_aid g
+        generalize ha' : ({ a with stopReq := true } : Actor) = a'
+        have haid' : a'.aid = b := by subst ha'; exact haid
+        have gs := getActor_setActor_self e a a' (by rw [haid']; exact g)
+        rw [haid'] at gs
+        unfold mbox
+        rw [gs, g]
+        subst ha'; rfl
+  · unfold mbox; rw [st.other b hb]
+
+theorem mbox_spawn_old (e : Env) (wid aid b : Nat) (h : b ≠ aid ∨ (e.getActor b).isSome) : mbox (e.spawn wid aid) b = mbox e b := by
+  unfold mbox
+  cases g : e.getActor b with
+  | some a => rw [getActor_spawn_old e wid aid b a g]
+  | none =>
+    rcases h with h | h
+    · cases g' : (e.spawn wid aid).getActor b with
+      | none => rfl
+      | some a' =>
+        rcases getActor_spawn_inv _ _ _ _ _ g' with h1 | ⟨_, h1, _⟩
+        · rw [g] at h1; cases h1
+        · exact absurd h1 h
+    · rw [g] at h; cases h
+
+theorem mbox_spawn_new (e : Env) (wid aid : Nat) (h : e.getActor aid = none) : mbox (e.spawn wid aid) aid = [] := by
+  unfold mbox; rw [getActor_spawn_new e wid aid h]
+
+/-! ## the order invariant with mailboxes and started jobs -/
+
+structure OrdW (I : List Job) (S : Nat → List Nat) (w : W) : Prop where
+  q : w.queue.Pairwise KO
+  m : ∀ p ∈ w.pool, (wq p w.env).Pairwise KO
+  qi : ∀ x ∈ w.queue, ∀ y ∈ I, KO x y
+  mq : ∀ p ∈ w.pool, ∀ x ∈ wq p w.env, ∀ y ∈ w.queue, KO x y
+  mi : ∀ p ∈ w.pool, ∀ x ∈ wq p w.env, ∀ y ∈ I, KO x y
+  /-- every job of key `k` that has started is older than every waiting job of key `k` -/
+  sq : ∀ x ∈ w.queue, ∀ s ∈ S x.key, s < x.id
+  sm : ∀ p ∈ w.pool, ∀ x ∈ wq p w.env, ∀ s ∈ S x.key, s < x.id
+
+def PoolSubW (w w' : W) : Prop := ∀ p' ∈ w'.pool, ∃ p ∈ w.pool, (wq p' w'.env).Sublist (wq p w.env)
+
+variable {I : List Job} {S : Nat → List Nat} {fk : Nat → List Nat}
+
+theorem OrdW.sub {w w' : W} (h : OrdW I S w) (hq : w'.queue.Sublist w.queue) (hp : PoolSubW w w') : OrdW I S w' := by
+  refine ⟨h.q.sublist hq, ?_, ?_, ?_, ?_, ?_, ?_⟩
+  · intro p' hp'
+    obtain ⟨p, hpm, hs⟩ := hp p' hp'
+    exact (h.m p hpm).sublist hs
+  · intro x hx y hy; exact h.qi x (hq.subset hx) y hy
+  · intro p' hp' x hx y hy
+    obtain ⟨p, hpm, hs⟩ := hp p' hp'
+    exact h.mq p hpm x (hs.subset hx) y (hq.subset hy)
+  · intro p' hp' x hx y hy
+    obtain ⟨p, hpm, hs⟩ := hp p' hp'
+    exact h.mi p hpm x (hs.subset hx) y hy
+  · intro x hx s hs; exact h.sq x (hq.subset hx) s hs
+  · intro p' hp' x hx s hs
+    obtain ⟨p, hpm, hsub⟩ := hp p' hp'
+    exact h.sm p hpm x (hsub.subset hx) s hs
+
+theorem PoolSubW.of_eq {w w' : W} (hp : w'.pool = w.pool) (he : ∀ aid, mbox w'.env aid = mbox w.env aid) : PoolSubW w w' := by
+  intro p' hp'
+  refine ⟨p', by rw [← hp]; exact hp', ?_⟩
+  unfold wq; rw [he]; exact List.Sublist.refl _
+
+theorem OrdW.of_eq {w w' : W} (h : OrdW I S w) (hq : w'.queue = w.queue) (hp : w'.pool = w.pool)
+    (he : ∀ aid, mbox w'.env aid = mbox w.env aid) : OrdW I S w' :=
+  h.sub (by rw [hq]; exact List.Sublist.refl _) (PoolSubW.of_eq hp he)
+
+theorem OrdW.of_actors {w w' : W} (h : OrdW I S w) (hq : w'.queue = w.queue) (hp : w'.pool = w.pool)
+    (he : w'.env.actors = w.env.actors) : OrdW I S w' :=
+  h.of_eq hq hp (fun aid => mbox_of_actors he aid)
+
+/-- what the order argument needs from the coupling invariant: one record per slot, one actor per slot -/
+structure Lite (w : W) : Prop where
+  nodup : NodupW w.pool
+  inj : ∀ p ∈ w.pool, ∀ q ∈ w.pool, p.actor = q.actor → p = q
+
+theorem Core.lite {w : W} (h : Core fk w) : Lite w := ⟨h.nodupW, fun _ hp _ hq ha => h.actor_inj hp hq ha⟩
+
+theorem Lite.of_pool {w w' : W} (h : Lite w) (hp : w'.pool = w.pool) : Lite w' := by
+  refine ⟨by rw [hp]; exact h.nodup, ?_⟩
+  intro p hpm q hq; rw [hp] at hpm hq; exact h.inj p hpm q hq
+
+theorem lite_setW {w w' : W} {wid : Nat} {p p' : WP} (h : Lite w) (hg : getW w.pool wid = some p)
+    (ha : p'.actor = p.actor) (hw : p'.wid = p.wid) (h1 : w'.pool = setW w.pool wid p') : Lite w' := by
+  have hpw : p.wid = wid := getW_wid hg
+  have hpm := getW_mem hg
+  refine ⟨by rw [h1]; exact nodupW_setW (hw.trans hpw) h.nodup, ?_⟩
+  intro x hx y hy hxy
+  rw [h1] at hx hy
+  rcases mem_setW_ne h.nodup hg (hw.trans hpw) hx with hx | ⟨hx, hxne⟩
+  · rcases mem_setW_ne h.nodup hg (hw.trans hpw) hy with hy | ⟨hy, hyne⟩
+    · rw [hx, hy]
+    · have hya : y.actor = p.actor := by rw [← hxy, hx, ha]
+      have := h.inj y hy p hpm hya
+      rw [this] at hyne; exact absurd hpw hyne
+  · rcases mem_setW_ne h.nodup hg (hw.trans hpw) hy with hy | ⟨hy, hyne⟩
+    · have hxa : x.actor = p.actor := by rw [hxy, hy, ha]
+      have := h.inj x hx p hpm hxa
+      rw [this] at hxne; exact absurd hpw hxne
+    · exact h.inj x hx y hy hxy
+
+theorem lite_removeW {w w' : W} {wid : Nat} (h : Lite w) (h1 : w'.pool = removeW w.pool wid) : Lite w' := by
+  refine ⟨by rw [h1]; exact nodupW_removeW wid h.nodup, ?_⟩
+  intro x hx y hy hxy
+  rw [h1] at hx hy
+  exact h.inj x (mem_removeW hx) y (mem_removeW hy) hxy
+
+/-- one slot's record and (only) its actor changed -/
+theorem poolSubW_setW {w w' : W} {wid : Nat} {p p' : WP} (hc : Lite w) (hg : getW w.pool wid = some p)
+    (ha : p'.actor = p.actor) (hw : p'.wid = p.wid) (hs : (wq p' w'.env).Sublist (wq p w.env))
+    (ho : ∀ b, b ≠ p.actor → mbox w'.env b = mbox w.env b) (h1 : w'.pool = setW w.pool wid p') : PoolSubW w w' := by
+  have hpw : p.wid = wid := getW_wid hg
+  have hpm := getW_mem hg
+  intro x hx
+  rw [h1] at hx
+  rcases mem_setW_ne hc.nodup hg (hw.trans hpw) hx with h | ⟨h, hne⟩
+  · subst h; exact ⟨p, hpm, hs⟩
+  · refine ⟨x, h, ?_⟩
+    have hxa : x.actor ≠ p.actor := by
+      intro hxa
+      have := hc.inj x h p hpm hxa
+      subst this; exact hne hpw
+    unfold wq; rw [ho _ hxa]; exact List.Sublist.refl _
+
+/-- the same, with a job `j'` joining the end of that slot's pipeline -/
+theorem ordW_slot_push {w w' : W} {wid : Nat} {p p' : WP} {j j' : Job} (hc : Lite w) (h : OrdW I S w)
+    (hjk : j'.key = j.key) (hji : j'.id = j.id)
+    (hg : getW w.pool wid = some p) (ha : p'.actor = p.actor) (hw : p'.wid = p.wid)
+    (hs : (wq p' w'.env).Sublist (wq p w.env ++ [j']))
+    (ho : ∀ b, b ≠ p.actor → mbox w'.env b = mbox w.env b)
+    (h1 : w'.pool = setW w.pool wid p') (h2 : w'.queue = w.queue)
+    (hj1 : ∀ q ∈ w.pool, ∀ x ∈ wq q w.env, KO x j) (hj2 : ∀ y ∈ w.queue, KO j y) (hj3 : ∀ y ∈ I, KO j y)
+    (hjs : ∀ s ∈ S j.key, s < j.id) : OrdW I S w' := by
+  have hpw : p.wid = wid := getW_wid hg
+  have hpm := getW_mem hg
+  have hko : ∀ x, KO x j' ↔ KO x j := fun x => by unfold KO; rw [hjk, hji]
+  have hko' : ∀ y, KO j' y ↔ KO j y := fun y => by unfold KO; rw [hjk, hji]
+  have hpw' : (wq p w.env ++ [j']).Pairwise KO := by
+    refine List.pairwise_append.mpr ⟨h.m p hpm, List.pairwise_singleton _ _, ?_⟩
+    intro a ha' b hb
+    simp only [List.mem_singleton] at hb; subst hb
+    exact (hko a).mpr (hj1 p hpm a ha')
+  have hmem : ∀ x, x ∈ w'.pool → (x = p' ∨ (x ∈ w.pool ∧ x.wid ≠ wid ∧ wq x w'.env = wq x w.env)) := by
+    intro x hx
+    rw [h1] at hx
+    rcases mem_setW_ne hc.nodup hg (hw.trans hpw) hx with hx | ⟨hx, hne⟩
+    · exact Or.inl hx
+    · refine Or.inr ⟨hx, hne, ?_⟩
+      have hxa : x.actor ≠ p.actor := by
+        intro hxa
+        have := hc.inj x hx p hpm hxa
+        subst this; exact hne hpw
+      unfold wq; rw [ho _ hxa]
+  refine ⟨by rw [h2]; exact h.q, ?_, ?_, ?_, ?_, ?_, ?_⟩
+  · intro x hx
+    rcases hmem x hx with hx | ⟨hx, _, he⟩
+    · subst hx; exact hpw'.sublist hs
+    · rw [he]; exact h.m x hx
+  · intro x hx y hy; rw [h2] at hx; exact h.qi x hx y hy
+  · intro x hx a ha' y hy
+    rw [h2] at hy
+    rcases hmem x hx with hx | ⟨hx, _, he⟩
+    · subst hx
+      rcases List.mem_append.mp (hs.subset ha') with ha' | ha'
+      · exact h.mq p hpm a ha' y hy
+      · simp only [List.mem_singleton] at ha'; subst ha'
+        exact (hko' y).mpr (hj2 y hy)
+    · rw [he] at ha'; exact h.mq x hx a ha' y hy
+  · intro x hx a ha' y hy
+    rcases hmem x hx with hx | ⟨hx, _, he⟩
+    · subst hx
+      rcases List.mem_append.mp (hs.subset ha') with ha' | ha'
+      · exact h.mi p hpm a ha' y hy
+      · simp only [List.mem_singleton] at ha'; subst ha'
+        exact (hko' y).mpr (hj3 y hy)
+    · rw [he] at ha'; exact h.mi x hx a ha' y hy
+  · intro x hx s hs'; rw [h2] at hx; exact h.sq x hx s hs'
+  · intro x hx a ha' s hs'
+    rcases hmem x hx with hx | ⟨hx, _, he⟩
+    · subst hx
+      rcases List.mem_append.mp (hs.subset ha') with ha' | ha'
+      · exact h.sm p hpm a ha' s hs'
+      · simp only [List.mem_singleton] at ha'; subst ha'
+        rw [hji]; rw [hjk] at hs'; exact hjs s hs'
+    · rw [he] at ha'; exact h.sm x hx a ha' s hs'
+
+
+/-! ## through the routing functions -/
+
+theorem RouterFrame.mbox {w w' : W} (f : RouterFrame w w') (aid : Nat) : mbox w'.env aid = mbox w.env aid := by
+  rw [f.env]
+
+theorem ordW_routeInner (w : W) (j : Job) (hint : Option Nat) (hc : Lite w) (h : OrdW I S w)
+    (hj1 : ∀ p ∈ w.pool, ∀ x ∈ wq p w.env, KO x j) (hj2 : w.pool ≠ [] → ∀ y ∈ w.queue, KO j y) (hj3 : ∀ y ∈ I, KO j y)
+    (hjs : ∀ s ∈ S j.key, s < j.id) : OrdW I S (w.routeInner j hint).2 := by
+  unfold W.routeInner
+  have hs := chooseTargetWorker_frame w j hint
+  cases hch : w.chooseTargetWorker j hint with
+  | mk t w1 =>
+    rw [hch] at hs
+    simp only at hs ⊢
+    have h1 : OrdW I S w1 := h.of_eq hs.queue hs.pool hs.mbox
+    have hc1 : Lite w1 := hc.of_pool hs.pool
+    cases t with
+    | none => exact h1
+    | some wid =>
+      simp only
+      cases hg : getW w1.pool wid with
+      | none => exact h1
+      | some p =>
+        simp only
+        have hpm : p ∈ w.pool := by rw [← hs.pool]; exact getW_mem hg
+        have hne : w.pool ≠ [] := fun hcc => by rw [hcc] at hpm; cases hpm
+        obtain ⟨e1, e2, e3⟩ := wq_enqueueJob p w1.env j
+        have hwid := enqueueJob_wid p w1.env j
+        cases he : p.enqueueJob w1.env j with
+        | mk p' e' =>
+          rw [he] at e1 e2 e3 hwid
+          simp only at e1 e2 e3 hwid ⊢
+          exact ordW_slot_push (w := w1) (w' := { w1 with pool := setW w1.pool wid p', env := e' })
+            (j := j) (j' := { j with port := false }) hc1 h1 rfl rfl hg e1 hwid e2 e3 rfl rfl
+            (fun q hq x hx => hj1 q (by rw [← hs.pool]; exact hq) x (by
+              have : wq q w1.env = wq q w.env := by unfold wq; rw [hs.mbox]
+              rw [← this]; exact hx))
+            (fun y hy => hj2 hne y (by rw [← hs.queue]; exact hy)) hj3 hjs
+
+theorem ordW_routeLimited (w : W) (j : Job) (hint : Option Nat) (hc : Lite w) (h : OrdW I S w)
+    (hj1 : ∀ p ∈ w.pool, ∀ x ∈ wq p w.env, KO x j) (hj2 : w.pool ≠ [] → ∀ y ∈ w.queue, KO j y) (hj3 : ∀ y ∈ I, KO j y)
+    (hjs : ∀ s ∈ S j.key, s < j.id) : OrdW I S (w.routeLimited j hint).2 := by
+  unfold W.routeLimited
+  split
+  · exact ordW_routeInner w j hint hc h hj1 hj2 hj3 hjs
+  · rename_i c lb _
+    simp only
+    have h0 : OrdW I S { w with rl := some (c, (LeakyBucket.check c lb w.env.now).1) } := h.of_actors rfl rfl rfl
+    have hc0 : Lite { w with rl := some (c, (LeakyBucket.check c lb w.env.now).1) } := hc.of_pool rfl
+    split
+    · split
+      · split
+        · rename_i hh _
+          have hf := availChange_frame ({ w with rl := some (c, (LeakyBucket.check c lb w.env.now).1) } : W) hh true
+          exact h0.of_eq hf.queue hf.pool hf.mbox
+        · exact h0
+      · exact h0
+    · have hi := ordW_routeInner _ j hint hc0 h0 hj1 hj2 hj3 hjs
+      cases hr : W.routeInner { w with rl := some (c, (LeakyBucket.check c lb w.env.now).1) } j hint with
+      | mk r w2 =>
+        rw [hr] at hi
+        simp only at hi ⊢
+        split
+        · exact hi.of_actors rfl rfl rfl
+        · exact hi
+
+theorem ordW_routeMessage (w : W) (j : Job) (hint : Option Nat) (hc : Lite w) (h : OrdW I S w)
+    (hj1 : ∀ p ∈ w.pool, ∀ x ∈ wq p w.env, KO x j) (hj2 : w.pool ≠ [] → ∀ y ∈ w.queue, KO j y) (hj3 : ∀ y ∈ I, KO j y)
+    (hjs : ∀ s ∈ S j.key, s < j.id) : OrdW I S (w.routeMessage j hint).2 := by
+  unfold W.routeMessage
+  have hi := ordW_routeLimited w j hint hc h hj1 hj2 hj3 hjs
+  cases hr : w.routeLimited j hint with
+  | mk r w2 => rw [hr] at hi; exact hi.of_actors rfl rfl rfl
+
+theorem lite_routeInner (w : W) (j : Job) (hint : Option Nat) (h : Lite w) : Lite (w.routeInner j hint).2 := by
+  unfold W.routeInner
+  have hs := chooseTargetWorker_frame w j hint
+  cases hch : w.chooseTargetWorker j hint with
+  | mk t w1 =>
+    rw [hch] at hs
+    simp only at hs ⊢
+    have h1 : Lite w1 := h.of_pool hs.pool
+    cases t with
+    | none => exact h1
+    | some wid =>
+      simp only
+      cases hg : getW w1.pool wid with
+      | none => exact h1
+      | some p =>
+        simp only
+        obtain ⟨e1, _, _⟩ := wq_enqueueJob p w1.env j
+        exact lite_setW h1 hg e1 (enqueueJob_wid p w1.env j) rfl
+
+theorem lite_routeLimited (w : W) (j : Job) (hint : Option Nat) (h : Lite w) : Lite (w.routeLimited j hint).2 := by
+  unfold W.routeLimited
+  split
+  · exact lite_routeInner w j hint h
+  · rename_i c lb _
+    simp only
+    have h0 : Lite { w with rl := some (c, (LeakyBucket.check c lb w.env.now).1) } := h.of_pool rfl
+    split
+    · split
+      · split
+        · rename_i hh _
+          exact h0.of_pool (availChange_frame ({ w with rl := some (c, (LeakyBucket.check c lb w.env.now).1) } : W) hh true).pool
+        · exact h0
+      · exact h0
+    · have hi := lite_routeInner _ j hint h0
+      cases hr : W.routeInner { w with rl := some (c, (LeakyBucket.check c lb w.env.now).1) } j hint with
+      | mk r w2 =>
+        rw [hr] at hi
+        simp only at hi ⊢
+        split
+        · exact hi.of_pool rfl
+        · exact hi
+
+theorem lite_routeMessage (w : W) (j : Job) (hint : Option Nat) (h : Lite w) : Lite (w.routeMessage j hint).2 := by
+  unfold W.routeMessage
+  have hi := lite_routeLimited w j hint h
+  cases hr : w.routeLimited j hint with
+  | mk r w2 => rw [hr] at hi; exact hi.of_pool rfl
+
+theorem dropExpiredHead_actors (fuel : Nat) (w : W) : (W.dropExpiredHead fuel w).env.actors = w.env.actors :=
+  (dropExpiredHead_act fuel w).env.actors
+
+theorem ordW_routeLoop (hint : Option Nat) (fuel : Nat) (w : W) (hc : Lite w) (h : OrdW I S w) :
+    OrdW I S (W.routeLoop hint fuel w) := by
+  induction fuel generalizing w with
+  | zero => exact h
+  | succ fuel ih =>
+    unfold W.routeLoop
+    split
+    · exact h
+    · rename_i j _
+      have hs := chooseTargetWorker_frame w j hint
+      cases hch : w.chooseTargetWorker j hint with
+      | mk t w1 =>
+        rw [hch] at hs
+        simp only at hs ⊢
+        have h1 : OrdW I S w1 := h.of_eq hs.queue hs.pool hs.mbox
+        have hc1 : Lite w1 := hc.of_pool hs.pool
+        cases t with
+        | none => exact h1
+        | some worker =>
+          simp only
+          cases hp : qPopFront w1.cfg w1.queue with
+          | none => exact h1
+          | some jq =>
+            obtain ⟨j', q'⟩ := jq
+            simp only
+            obtain ⟨_, _, _, _, pre, post, e1, e2, e3⟩ :=
+              popByPrio_spec (show popByPrio w1.cfg prioUp w1.queue = some (j', q') from hp)
+            have hsub : q'.Sublist w1.queue := by
+              rw [e1, e2]; exact List.Sublist.append (List.Sublist.refl _) (List.sublist_cons_self _ _)
+            have h2 : OrdW I S ({ w1 with queue := q' } : W) := h1.sub hsub (PoolSubW.of_eq rfl (fun _ => rfl))
+            have hc2 : Lite ({ w1 with queue := q' } : W) := hc1.of_pool rfl
+            have hjm : j' ∈ w1.queue := by rw [e1]; exact List.mem_append_right _ (List.mem_cons_self ..)
+            have hr := ordW_routeMessage ({ w1 with queue := q' } : W) j' (some worker) hc2 h2
+              (fun p hp x hx => h1.mq p hp x hx j' hjm)
+              (fun _ y hy => by
+                simp only at hy
+                rw [e2] at hy
+                rcases List.mem_append.mp hy with hy | hy
+                · intro hk
+                  exact absurd (prioOf_key w1.cfg y j' hk.symm) (e3 y hy)
+                · have hq := h1.q
+                  rw [e1] at hq
+                  exact (List.pairwise_cons.mp (List.pairwise_append.mp hq).2.1).1 y hy)
+              (fun y hy => h1.qi j' hjm y hy)
+              (fun s hs' => h1.sq j' hjm s hs')
+            have hcr := lite_routeMessage ({ w1 with queue := q' } : W) j' (some worker) hc2
+            cases hrm : W.routeMessage { w1 with queue := q' } j' (some worker) with
+            | mk r w2 =>
+              rw [hrm] at hr hcr
+              cases r with
+              | handled => exact hr
+              | rateLimited =>
+                exact ih _ (hcr.of_pool rfl)
+                  (hr.of_actors rfl rfl ((envEq_discard _ _ _ _).trans (envEq_reject _ _)).actors)
+              | backlog => exact hr.of_actors rfl rfl ((envEq_emit _ _).trans (envEq_emit _ _)).actors
+
+theorem ordW_tryRoute (w : W) (hint : Option Nat) (hc : Lite w) (h : OrdW I S w) :
+    OrdW I S (w.tryRouteNextActiveJob hint) := by
+  unfold W.tryRouteNextActiveJob
+  apply ordW_routeLoop _ _ _ (hc.of_pool (dropExpiredHead_pool _ w))
+  exact h.sub (qsub_dropExpiredHead _ w).queue
+    (PoolSubW.of_eq (dropExpiredHead_pool _ w) (fun aid => mbox_of_actors (dropExpiredHead_actors _ w) aid))
+
+theorem shedQueueOldest_actors (limit fuel : Nat) (w : W) : (W.shedQueueOldest limit fuel w).env.actors = w.env.actors :=
+  (shedQueueOldest_act limit fuel w).env.actors
+
+theorem maybeEnqueue_actors (w : W) (j : Job) : (w.maybeEnqueue j).env.actors = w.env.actors :=
+  (maybeEnqueue_act w j).env.actors
+
+theorem routeInner_backlog_env (w : W) (j : Job) (hint : Option Nat) (hb : (w.routeInner j hint).1 = .backlog) :
+    (w.routeInner j hint).2.env = w.env := by
+  unfold W.routeInner at hb ⊢
+  have hs := chooseTargetWorker_frame w j hint
+  cases hc : w.chooseTargetWorker j hint with
+  | mk t w1 =>
+    rw [hc] at hs hb
+    simp only at hs hb ⊢
+    cases t with
+    | none => exact hs.env
+    | some wid =>
+      simp only at hb ⊢
+      cases hg : getW w1.pool wid with
+      | none => simp only; exact hs.env
+      | some p => rw [hg] at hb; simp at hb
+
+theorem routeMessage_backlog_env (w : W) (j : Job) (hint : Option Nat) (hb : (w.routeMessage j hint).1 = .backlog) :
+    (w.routeMessage j hint).2.env = w.env := by
+  unfold W.routeMessage W.routeLimited at hb ⊢
+  cases hrl : w.rl with
+  | none =>
+    simp only [hrl] at hb ⊢
+    have := routeInner_backlog_env w j hint
+    cases hri : w.routeInner j hint with
+    | mk r w2 =>
+      rw [hri] at this hb
+      simp only at this hb ⊢
+      exact this hb
+  | some cl =>
+    obtain ⟨c, lb⟩ := cl
+    simp only [hrl] at hb ⊢
+    split at hb
+    · simp at hb
+    · rename_i hok
+      simp only [hok, Bool.false_eq_true, if_false]
+      have := routeInner_backlog_env ({ w with rl := some (c, (LeakyBucket.check c lb w.env.now).1) } : W) j hint
+      cases hri : W.routeInner { w with rl := some (c, (LeakyBucket.check c lb w.env.now).1) } j hint with
+      | mk r w2 =>
+        rw [hri] at this hb
+        simp only at this hb ⊢
+        split at hb
+        · rename_i hh
+          have : r = .handled := by simpa using hh
+          subst this; simp at hb
+        · rename_i hh
+          simp only [hh, Bool.false_eq_true, if_false]
+          exact this hb
+
+theorem ordW_dispatch (w : W) (j : Job) (hc : Lite w) (h : OrdW I S w) (hnb : w.pool ≠ [] → w.queue = [])
+    (hjq : ∀ x ∈ w.queue, KO x j) (hj1 : ∀ p ∈ w.pool, ∀ x ∈ wq p w.env, KO x j) (hj3 : ∀ y ∈ I, KO j y)
+    (hjs : ∀ s ∈ S j.key, s < j.id) : OrdW I S (w.dispatch j) := by
+  unfold W.dispatch
+  split
+  · exact h.of_actors rfl rfl ((envEq_discard _ _ _ _).trans (envEq_reject _ _)).actors
+  · split
+    · have hf := routeMessage_frame w j none
+      have hr := ordW_routeMessage w j none hc h hj1 (fun hne y hy => by rw [hnb hne] at hy; cases hy) hj3 hjs
+      have hps := routeMessage_backlog_pool w j none
+      have hpe := routeMessage_backlog_env w j none
+      cases hrm : w.routeMessage j none with
+      | mk r w2 =>
+        rw [hrm] at hf hr hps hpe
+        simp only at hf hr hps hpe ⊢
+        cases r with
+        | handled => exact hr
+        | rateLimited => exact hr.of_actors rfl rfl ((envEq_discard _ _ _ _).trans (envEq_reject _ _)).actors
+        | backlog =>
+          obtain ⟨ms, mp⟩ := maybeEnqueue_sublist w2 j
+          have ma := maybeEnqueue_actors w2 j
+          have hwqe : ∀ p, wq p (w2.maybeEnqueue j).env = wq p w2.env := fun p => by
+            unfold wq; rw [mbox_of_actors ma]
+          have hq2 : (w2.queue ++ [({ j with port := false } : Job)]).Pairwise KO := by
+            refine List.pairwise_append.mpr ⟨hr.q, List.pairwise_singleton _ _, ?_⟩
+            intro a ha b hb
+            simp only [List.mem_singleton] at hb; subst hb
+            exact hjq a (by rw [← hf.queue]; exact ha)
+          -- in this branch nothing was routed: the worker pipelines are those of `w`
+          have hroute_noop : ∀ p ∈ w2.pool, ∀ x ∈ wq p w2.env, KO x j := by
+            intro p hp x hx
+            rw [hps rfl] at hp
+            rw [hpe rfl] at hx
+            exact hj1 p hp x hx
+          refine ⟨hq2.sublist ms, ?_, ?_, ?_, ?_, ?_, ?_⟩
+          · intro p hp; rw [mp] at hp; rw [hwqe]; exact hr.m p hp
+          · intro x hx y hy
+            rcases List.mem_append.mp (ms.subset hx) with hx | hx
+            · exact hr.qi x hx y hy
+            · simp only [List.mem_singleton] at hx; subst hx; exact hj3 y hy
+          · intro p hp x hx y hy
+            rw [mp] at hp; rw [hwqe] at hx
+            rcases List.mem_append.mp (ms.subset hy) with hy | hy
+            · exact hr.mq p hp x hx y hy
+            · simp only [List.mem_singleton] at hy; subst hy
+              exact hroute_noop p hp x hx
+          · intro p hp x hx y hy; rw [mp] at hp; rw [hwqe] at hx; exact hr.mi p hp x hx y hy
+          · intro x hx s hs'
+            rcases List.mem_append.mp (ms.subset hx) with hx | hx
+            · exact hr.sq x hx s hs'
+            · simp only [List.mem_singleton] at hx; subst hx; exact hjs s hs'
+          · intro p hp x hx s hs'; rw [mp] at hp; rw [hwqe] at hx; exact hr.sm p hp x hx s hs'
+    · exact h.of_actors rfl rfl ((envEq_discard _ _ _ _).trans (envEq_reject _ _)).actors
+
 end Factory
